@@ -225,9 +225,8 @@ def stage_toy(ctx):
             # for the binding self-test: a signing case off the paths of the known defects (recovery id 0 or 1)
             if rec["k"] == "sign" and "plain" not in first and rec["recid"] < 2 and cname == "p43":
                 first["plain"] = rec
-        cov = (not q) and cname == "p43"          # vacuity guard once per thorough run (coverage doubles TLC's time)
-        ctx.tlc("MC_MsgReplay", "MC_MsgReplay_%s_%s" % (cname, tier), on_record=on, keep_records=False, timeout=3000,
-                coverage=cov, require_actions=("RetryIncrementNonce", "SignEmit", "RecEmit", "TextEmit") if cov else ())
+        # (no -coverage here: with the cost model on, this export module runs on one core for > 10 min)
+        ctx.tlc("MC_MsgReplay", "MC_MsgReplay_%s_%s" % (cname, tier), on_record=on, keep_records=False, timeout=3000)
         fails, counts = st.finish()
         ctx.log("toy %s: %d cases replayed on pycoin (%s), %d disagreements" % (
             cname, st.n, ", ".join("%s=%d" % kv for kv in sorted(counts.items()) if kv[0].startswith("toy.")), len(fails)))
@@ -236,6 +235,14 @@ def stage_toy(ctx):
         _report(ctx, fails)
         if st.n == 0:
             raise MachineryError("no toy cases exported for " + cname)
+        # vacuity guards: every kind of case, the retry action and recovery ids 2/3 were exercised
+        for need in ("toy.sign", "toy.rec") + (("toy.text",) if cname == "p43" else ()):
+            if not counts.get(need):
+                raise MachineryError("vacuity: no %s case on %s" % (need, cname))
+        if not any(k.startswith("class:sign|%s|" % cname) and k.endswith("retry=True") for k in counts):
+            raise MachineryError("vacuity: RetryIncrementNonce never taken on " + cname)
+        if not any(k.startswith("class:sign|%s|recid=3" % cname) for k in counts):
+            raise MachineryError("vacuity: no signature with recovery id 3 on " + cname)
     # binding self-test: a corrupted expectation must be noticed
     if "plain" in first:
         bad = copy.deepcopy(first["plain"])
